@@ -94,6 +94,28 @@ KEY_GROUPS += [
     [["i", -1], ["i", -2], ["i", 2], ["i", 3], ["r", -1.0]],
 ]
 NEGATIVE_GROUPS = KEY_GROUPS[-2:]
+# integer keys that a float64 cannot hold, next to real keys (a dictionary keeps them exact; anything
+# that pushes a whole tuple / a whole dictionary through ONE numeric array rounds them)
+B53 = 2 ** 53
+KEY_GROUPS += [
+    [["i", B53 + 1], ["i", B53 + 2], ["i", B53], ["r", float(B53)], ["r", 2.5]],
+    [["i", 2 ** 62], ["i", 2 ** 63 - 1], ["i", -(B53 + 1)], ["r", 0.5], ["i", 2 ** 62 + 1]],
+    [["i", B53 + 1], ["i", B53 + 3], ["r", -2.5], ["i", 1], ["r", 1.5]],
+]
+BIGINT_GROUPS = KEY_GROUPS[-3:]
+
+
+def is_big(k):
+    return k[0] == "i" and abs(int(k[1])) > B53
+
+
+def fit(k, v):
+    """a [k v] tuple is ONE array: next to a real payload the key itself becomes a real (C01's
+    mixed-numeric class, not a dictionary matter), so an integer key beyond float53 only gets
+    payloads that are not real atoms; real keys / payloads sit in OTHER entries"""
+    if is_big(k) and v[0] == "r":
+        return ["i", 3]
+    return v
 
 VALUES = [
     ["i", 0], ["i", -3], ["i", 17], ["i", 1], ["r", 2.5], ["r", -0.5], ["r", 1e-07], ["r", 1e100],
@@ -216,10 +238,11 @@ def klong_text(op):
     if o == "size":
         return f"#{op['d']}"
     if o == "each":
-        return "{x}'" + op["d"]
+        # `rec` is a Python function the harness registers: it records the very object Each hands to f
+        return ("{rec(x)}'" if op.get("form") == "lambda" else "rec'") + op["d"]
     if o == "eachupd":
         # Each with a function that overwrites the visited entry in place (same key, same value)
-        return "{" + op["d"] + ",x;x}'" + op["d"]
+        return "{" + op["d"] + ",x;rec(x)}'" + op["d"]
     if o == "joinbad":
         # a malformed add: a one-element tuple (raises; must leave the dictionary as it was)
         if op.get("form") == "cat":
@@ -399,6 +422,9 @@ class Machine:
         if what == "each":
             it = d.items()
             return f"P{len(it)}:" + ";".join(sorted(f"{k}~{v}" for k, v in it))
+        if what == "eachfind":
+            vs = [v for _, v in d.items()]
+            return f"V{len(vs)}:" + ";".join(sorted(vs))
         v = d.get(key)
         if what == "index":       # d@k
             if key[0] != "i":
@@ -419,6 +445,35 @@ class Real:
         self.klong = KlongInterpreter()
         self.ids = {}
         self.objs = []          # keeps every dictionary alive, so ids are never reused
+        self.log = []           # what Each handed to f, call by call
+
+        def rec(x):
+            self.log.append(x)
+            return 0
+
+        self.klong["rec"] = rec
+
+    def each(self, text):
+        """run an Each whose function records its argument; the observation is the tuples f RECEIVED
+        (the result list is assembled by kg_asarray afterwards, which is not the dictionary's business)"""
+        self.log = []
+        res = self.ev(text)
+        try:
+            n = len(res)
+        except TypeError:
+            n = -1
+        if n != len(self.log):
+            return f"calls{len(self.log)}/results{n}"
+        return self.canon_pairs(self.log)
+
+    def eachfind(self, name):
+        """{d?x@0}'d: every visited key, looked up inside f, must find its own payload"""
+        res = self.ev("{" + name + "?x@0}'" + name)
+        try:
+            items = [self.canon(x) for x in res]
+        except TypeError:
+            return self.canon(res)
+        return f"V{len(items)}:" + ";".join(sorted(items))
 
     def register(self, obj):
         if isinstance(obj, dict) and id(obj) not in self.ids:
@@ -479,7 +534,7 @@ class Real:
                     return self.canon(res)
                 items.append(f"{self.nkey(row[0])}~{self.canon(row[1])}")
             return f"P{len(rows)}:" + ";".join(sorted(items))
-        except TypeError:
+        except Exception:  # noqa
             return self.canon(res)
 
     def digest(self, names):
@@ -496,6 +551,8 @@ class Real:
     def run_op(self, op):
         text = klong_text(op)
         try:
+            if op["op"] in ("each", "eachupd"):
+                return self.each(text)
             res = self.ev(text)
         except KeyError:
             return "KeyError"
@@ -505,8 +562,6 @@ class Real:
             return f"raises:{type(e).__name__}"
         if op["op"] in ("lit", "call"):
             self.register(res)
-        if op["op"] in ("each", "eachupd"):
-            return self.canon_pairs(res)
         if op["op"] == "size":
             return self._size(res)
         return self.canon(res)
@@ -520,7 +575,9 @@ class Real:
             if what == "size":
                 return self._size(self.ev(f"#{name}"))
             if what == "each":
-                return self.canon_pairs(self.ev("{x}'" + name))
+                return self.each("rec'" + name)
+            if what == "eachfind":
+                return self.eachfind(name)
             if what == "index":
                 return self.canon(self.ev(f"{name}@{src(key, False)}"))
             if what == "index1":
@@ -541,6 +598,8 @@ def make_pool(rng):
         groups[0] = rng.choice(NEAR_TWIN_GROUPS)
     elif u < 0.45:
         groups[0] = rng.choice(NEGATIVE_GROUPS)
+    elif u < 0.65:
+        groups[0] = rng.choice(BIGINT_GROUPS)
     pool = []
     for g in groups:
         pool += rng.sample(g, min(len(g), 3))
@@ -554,7 +613,11 @@ def make_pool(rng):
 
 
 def gen_pairs(rng, pool, n):
-    return [[rng.choice(pool), rng.choice(VALUES)] for _ in range(n)]
+    out = []
+    for _ in range(n):
+        k = rng.choice(pool)
+        out.append([k, fit(k, rng.choice(VALUES))])
+    return out
 
 
 def gen_op(rng, st, pool, done=()):
@@ -582,7 +645,7 @@ def gen_op(rng, st, pool, done=()):
         side = rng.choice(["L", "R"])
         if rng.random() < 0.15:
             return dict(op="join", side=side, form="cat", d=d, k=k, v=["var", rng.choice(refs)], into=into)
-        v = rng.choice(VALUES)
+        v = fit(k, rng.choice(VALUES))
         # `,0cx` is the string "x", so the computed tuple k,,v is only used for non-character values
         form = "lit" if v[0] == "c" else rng.choice(["lit", "cat"])
         return dict(op="join", side=side, form=form, d=d, k=k, v=v, into=into)
@@ -602,11 +665,14 @@ def gen_op(rng, st, pool, done=()):
             into = rng.choice(VARS)
         return dict(op="index", d=d, k=k, into=into)
     if r < 0.85:
-        return dict(op="indexmany", d=d, ks=[rng.choice(pool) for _ in range(rng.randrange(0, 4))])
+        ks = [rng.choice(pool) for _ in range(rng.randrange(0, 4))]
+        if any(is_big(x) for x in ks):      # the list literal [k1 k2] is one array: keep it all-integer
+            ks = [x for x in ks if x[0] == "i"]
+        return dict(op="indexmany", d=d, ks=ks)
     if r < 0.89:
         return dict(op="size", d=d)
     if r < 0.92:
-        return dict(op="each", d=d)
+        return dict(op="each", d=d, form=rng.choice(["verb", "lambda"]))
     if r < 0.94:
         return dict(op="eachupd", d=d)
     if r < 0.97:
@@ -737,6 +803,7 @@ def run_history(ctx, drv, label, ops=None, pool=None, length=0, classify=True, r
         for name in oracle.ref_vars():
             probes.append(((name, "size", None), real.probe(name, "size")))
             probes.append(((name, "each", None), real.probe(name, "each")))
+            probes.append(((name, "eachfind", None), real.probe(name, "eachfind")))
             for k in pool:
                 # every key through every lookup entry point: d?k, d@k, d@[k]
                 for what in ("find", "index", "index1"):
@@ -775,9 +842,11 @@ def run_history(ctx, drv, label, ops=None, pool=None, length=0, classify=True, r
                 want = oracle.probe(name, what, key)
                 if not agrees(want, got):
                     cls = {"size": "size-not-number-of-distinct-keys", "each": "each-not-every-pair-once",
+                           "eachfind": "each-visited-key-not-found-in-f",
                            "find": "lookup-after-history", "index": "index-after-history",
                            "index1": "index-list-after-history"}[what]
-                    text = {"size": f"#{name}", "each": "{x}'" + name}.get(what) or {
+                    text = {"size": f"#{name}", "each": "rec'" + name,
+                            "eachfind": "{" + name + "?x@0}'" + name}.get(what) or {
                         "find": f"{name}?{src(key, False)}", "index": f"{name}@{src(key, False)}",
                         "index1": f"{name}@[{src(key, True)}]"}[what]
                     fail(_fail_key(op, "probe:" + cls), want, got, f"after step {i}: {klong_text(op)}; probe {text}")
@@ -795,7 +864,8 @@ def run_history(ctx, drv, label, ops=None, pool=None, length=0, classify=True, r
                 ctx.bump("mismatch:" + op["op"])
                 return
             lines = []
-            for (name, what, key), got in probes:
+            mprobes = [pr for pr in probes if pr[0][1] != "eachfind"]     # (oracle-only probe)
+            for (name, what, key), got in mprobes:
                 if what in ("find", "index"):
                     lines.append(f"{what} d={name} k={raw_key_tok(key)} into=")
                 elif what == "index1":
@@ -804,7 +874,7 @@ def run_history(ctx, drv, label, ops=None, pool=None, length=0, classify=True, r
                     lines.append(f"{what} d={name}")
             if lines:
                 replies = drv.ask_many(lines)
-                for ((name, what, key), got), rep in zip(probes, replies):
+                for ((name, what, key), got), rep in zip(mprobes, replies):
                     if rep != f"out={got} state={dig}":
                         ctx.mismatch(f"Klong.C10.step vs klongpy (probe {what})", case(), rep,
                                      f"out={got} state={dig}")
@@ -999,6 +1069,19 @@ BUILTIN_HISTORIES = [
      dict(op="remove", d="da", k=["r", 0.3], into=None),
      dict(op="find", d="da", k=["r", 0.3], into=None),
      dict(op="each", d="da")],
+    # round-4: integer keys beyond float53 next to real keys / payloads; Each must hand f the exact tuples
+    [dict(op="lit", x="da", ps=[[["i", B53 + 1], ["i", 1]], [["i", B53 + 2], ["i", 2]]]),
+     dict(op="each", d="da", form="verb"),
+     dict(op="join", side="L", form="lit", d="da", k=["r", 2.5], v=["i", 3], into=None),
+     dict(op="each", d="da", form="lambda"),
+     dict(op="join", side="R", form="lit", d="da", k=["i", 7], v=["r", 0.5], into=None),
+     dict(op="eachupd", d="da"),
+     dict(op="find", d="da", k=["r", float(B53)], into=None),
+     dict(op="lit", x="db", ps=[[["i", 2 ** 63 - 1], ["i", 1]], [["i", 2 ** 62 + 1], ["i", -4]], [["r", -2.5], ["r", 1.5]]]),
+     dict(op="each", d="db", form="verb"),
+     dict(op="index", d="db", k=["i", 2 ** 62 + 1], into=None),
+     dict(op="remove", d="db", k=["i", 2 ** 63 - 1], into=None),
+     dict(op="each", d="db", form="lambda")],
     # round-3 additions (negative integer keys / failed adds / Each over a dictionary its function updates)
     [{'op': 'lit', 'x': 'da', 'ps': []}, {'op': 'join', 'side': 'L', 'form': 'lit', 'd': 'da', 'k': ['i', -1], 'v': ['i', 10], 'into': None}, {'op': 'join', 'side': 'L', 'form': 'lit', 'd': 'da', 'k': ['i', 1], 'v': ['i', 20], 'into': None}, {'op': 'index', 'd': 'da', 'k': ['i', -1], 'into': None}, {'op': 'find', 'd': 'da', 'k': ['i', -1], 'into': None}, {'op': 'lit', 'x': 'db', 'ps': [[['i', 0], ['i', 5]], [['i', -1], ['i', 10]]]}, {'op': 'index', 'd': 'db', 'k': ['i', -1], 'into': None}, {'op': 'alias', 'x': 'dc', 'd': 'db'}, {'op': 'remove', 'd': 'dc', 'k': ['i', -1], 'into': None}, {'op': 'index', 'd': 'db', 'k': ['i', -1], 'into': None}, {'op': 'deffn', 'f': 'f1', 'form': 'plain', 'ps': [[['i', -2], ['s', 'm2']], [['i', -5], ['s', 'm5']], [['i', 0], ['s', 'z']]]}, {'op': 'call', 'x': 'dd', 'f': 'f1'}, {'op': 'index', 'd': 'dd', 'k': ['i', -2], 'into': None}, {'op': 'indexmany', 'd': 'dd', 'ks': [['i', -5], ['i', -2]]}],
     [{'op': 'lit', 'x': 'da', 'ps': [[['i', 1], ['i', 10]], [['s', 'a'], ['i', 20]], [['r', 2.5], ['i', 30]]]}, {'op': 'alias', 'x': 'db', 'd': 'da'}, {'op': 'joinbad', 'd': 'da', 'k': ['i', 1], 'form': 'lit'}, {'op': 'size', 'd': 'da'}, {'op': 'joinbad', 'd': 'db', 'k': ['c', 'a'], 'form': 'lit'}, {'op': 'joinbad', 'd': 'da', 'k': ['r', 2.5], 'form': 'cat'}, {'op': 'joinbad', 'd': 'da', 'k': ['i', 7], 'form': 'cat'}, {'op': 'find', 'd': 'db', 'k': ['i', 1], 'into': None}, {'op': 'each', 'd': 'db'}],
